@@ -66,6 +66,9 @@ func propC07(c *Ctx, r *Report) {
 			}
 		}
 	}
+	r.Clauses = append(r.Clauses, "matrix layout through arrays (E13): every site of the SPIR-V backend that emits a MatrixStride member decoration found its matrix by unwrapping array types in a loop (all nesting levels), not once")
+	c.runSeeThrough(r, "layout.seethrough")
+	r.floor("layout.seethrough", 2)
 	r.inst("layout.fields", n)
 	r.floor("layout.fields", 12)
 }
